@@ -1,7 +1,7 @@
 (* C13 - each low-level Encoder/Decoder call handles exactly one reference-encoded field. *)
 From Coq Require Import List ZArith Bool.
 From Pico Require Import Base.Res Base.Mach Wire.Wire Schema.Types Schema.Scalar Ref.Ref
-  Schema.ScalarProofs Enc.Enc Enc.EncProofs Dec.Dec Dec.ReaderProofs.
+  Schema.ScalarProofs Enc.Enc Enc.EncProofs Dec.Dec Dec.ReaderProofs gen.ConvGen gen.TypesTable.
 Import ListNotations.
 Open Scope Z_scope.
 
@@ -49,6 +49,16 @@ Proof. exact next_field_tag. Qed.
    unpacked), of Message/PresentMessage/RepeatedMessage/RepeatedEnum/UnrecognizedFields and
    of arbitrary *programs* of writer calls are tied to the code by the exhaustive
    correspondence grids only; see DESIGN.md (C13). *)
+
+(* tie to the source by translation: the zig-zag terms regenerated from conv.go/wire.go are the
+   model's, and the generator's types table is the one the model mirrors *)
+Theorem C13_source_conv : (forall x, gen_encode_zigzag32 x = encode_zigzag32 x) /\ (forall x, gen_decode_zigzag32 x = decode_zigzag32 x) /\
+  (forall x, gen_encode_zigzag64 x = encode_zigzag64 x) /\ (forall x, gen_decode_zigzag64 x = decode_zigzag64 x) /\
+  gen_types_table = Schema.TableSpec.expected_types_table.
+Proof.
+  split; [exact gen_encode_zigzag32_ok|]. split; [exact gen_decode_zigzag32_ok|].
+  split; [exact gen_encode_zigzag64_ok|]. split; [exact gen_decode_zigzag64_ok|exact types_table_ok].
+Qed.
 
 Example C13_nonvacuous :
   scalar_ok KSint32 (VInt (-1)) = true /\ valid_number 536870911 = true /\
